@@ -667,7 +667,10 @@ def R10(vc):
         def at_back(loc):
             vc.ensure('item_semantics', holds)           # the walk goes on only past a criterion that holds
             check_callback()
-        ld = vc.load(REG, '_matches_metadata', loops={1: LoopSpec('for key, value in pattern.items()', element=element, at_backedge=at_back)})
+        ld = vc.load(REG, '_matches_metadata', loops={1: LoopSpec('for key, value in pattern.items()', element=element, at_backedge=at_back,
+                                                         # `kwargs` is loop-carried: ONE dict, filled in place (`|=`) by the first iteration that needs it --
+                                                         # an arbitrary iteration finds it as drawn above: still empty, or filled already (`pre`)
+                                                         havoc=lambda loc: {'kwargs': kwargs})})
         res = ld.fn(pattern=pattern, content=content, kwargs=kwargs, cause=cause)
         vc.ensure('all_items', res is True or res is False)
         if state['exhausted']:
@@ -1103,6 +1106,14 @@ def _falsy(x):
     return x is None or x is False
 
 
+
+def _same_option(got, want):
+    """an option reaches the handler as given: equal AND not None-for-zero / False-for-None (0, 0.0, False, '' are values)"""
+    if want is None:
+        return got is None
+    return got is not None and isinstance(got, bool) == isinstance(want, bool) and got == want
+
+
 @harness('R15', targets=[f'kopf.on.{k}' for k in RESOURCE_KINDS + tuple(ACTIVITY_KINDS) + ('subhandler', 'register')] +
                         ['kopf.on._verify_operations', 'kopf.on._verify_filters', 'kopf.on._warn_conflicting_values',
                          'kopf.on._warn_incompatible_parent_with_oldnew'],
@@ -1147,7 +1158,9 @@ def R15(vc):
         return None
     P, E_, W = Opaque('param'), execution.ErrorsMode.PERMANENT, (lambda **_: True)
     LBL, ANN = {'l': 'v', 'e': ''}, {'a': PRESENT}
-    policy = dict(errors=E_, timeout=12.5, retries=3, backoff=0.5)
+    # typical values, and the falsy-but-present ones (0 is a value, not "unset": retries=0, timeout=0, interval=0 ...)
+    zeros = vc.nondet(2, 'numeric options: typical values / zeros') == 1
+    policy = dict(errors=E_, timeout=0 if zeros else 12.5, retries=0 if zeros else 3, backoff=0 if zeros else 0.5)
 
     if part == 0:
         kind = RESOURCE_KINDS[vc.nondet(len(RESOURCE_KINDS), 'kind')]
@@ -1178,10 +1191,16 @@ def R15(vc):
         extra = {}
         if kind == 'daemon':
             extra = dict(initial_delay=1.5, cancellation_backoff=2.0, cancellation_timeout=3.0, cancellation_polling=4.0)
+            if zeros:
+                extra = dict(initial_delay=0, cancellation_backoff=0, cancellation_timeout=0, cancellation_polling=0)
         if kind == 'timer':
             extra = dict(initial_delay=1.5, interval=7.0, idle=8.0, sharp=True)
+            if zeros:
+                extra = dict(initial_delay=0, interval=0, idle=0, sharp=False)
         if kind in ('validate', 'mutate'):
             extra = dict(operations=['CREATE', 'UPDATE'], subresource='status', persistent=True, side_effects=False, ignore_failures=True)
+            if zeros:
+                extra = dict(operations=['DELETE'], subresource='', persistent=False, side_effects=False, ignore_failures=False)
         kw.update(extra)
         notation = vc.nondet(2, 'selector: positional | keywords')
         sel_args, sel_kw = ((('kopf.dev', 'v1', 'kopfexamples'), {}) if notation == 0 else ((), dict(group='kopf.dev', kind='KopfExample')))
@@ -1215,17 +1234,19 @@ def R15(vc):
                 vc.ensure('update_handlers_need_change', _falsy(h.field_needs_change) and h.old is None and h.new is None)
         elif kind in ('daemon', 'timer'):
             vc.ensure('spawning_requires_finalizer', h.requires_finalizer is True)
-            vc.ensure('kind_attributes', all(getattr(h, k) == v for k, v in extra.items()))
+            vc.ensure('kind_attributes', all(_same_option(getattr(h, k), v) for k, v in extra.items()))
         elif kind in ('validate', 'mutate'):
             vc.ensure('kind_attributes', h.reason is (WT.VALIDATING if kind == 'validate' else WT.MUTATING))
-            vc.ensure('kind_attributes', all(getattr(h, k) == v for k, v in extra.items()))
+            vc.ensure('kind_attributes', all(_same_option(getattr(h, k), v) for k, v in extra.items() if k != 'operations')
+                      and list(h.operations) == extra['operations'])
         # -- criteria, policy
         vc.ensure('criteria_passed_through', h.param is P and h.labels is LBL and h.annotations is ANN and h.when is W)
         vc.ensure('criteria_passed_through', h.field == (('spec', 'x') if field is not None else None)
                   and (h.field is None or isinstance(h.field, tuple)))
         vc.ensure('criteria_passed_through', h.value == ('v' if vvar == 1 else None))
         if kind in WITH_ERROR_POLICY:
-            vc.ensure('error_policy_passed_through', h.errors is E_ and h.timeout == 12.5 and h.retries == 3 and h.backoff == 0.5)
+            vc.ensure('error_policy_passed_through', h.errors is E_ and _same_option(h.timeout, policy['timeout'])
+                      and _same_option(h.retries, policy['retries']) and _same_option(h.backoff, policy['backoff']))
         else:
             vc.ensure('error_policy_passed_through', h.errors is None and h.timeout is None and h.retries is None and h.backoff is None)
         # -- id
@@ -1266,7 +1287,8 @@ def R15(vc):
             return (kind, 'nothing registered')
         h = got[0][1]
         vc.ensure('activity_kind', h.activity is ACTIVITY_KINDS[kind] and h._fallback is False and h.fn is myfn and h.param is P)
-        vc.ensure('error_policy_passed_through', h.errors is E_ and h.timeout == 12.5 and h.retries == 3 and h.backoff == 0.5)
+        vc.ensure('error_policy_passed_through', h.errors is E_ and _same_option(h.timeout, policy['timeout'])
+                  and _same_option(h.retries, policy['retries']) and _same_option(h.backoff, policy['backoff']))
         vc.ensure('id_from_function_or_id_plus_field', h.id == ('explicit' if explicit_id else 'R15.<locals>.myfn'))
         return (kind, explicit_id, h.id)
 
@@ -1303,7 +1325,8 @@ def R15(vc):
         vc.ensure('subhandler', bool(h.field_needs_change) == (pkind in ('update', 'field')))
         vc.ensure('subhandler', (h.old == 'o' and h.new is PRESENT and h.field == ('spec', 'y')) if with_oldnew else (h.old is None and h.new is None and h.field is None))
         vc.ensure('criteria_passed_through', h.param is P and h.labels is LBL and h.annotations is ANN and h.when is W)
-        vc.ensure('error_policy_passed_through', h.errors is E_ and h.timeout == 12.5 and h.retries == 3 and h.backoff == 0.5)
+        vc.ensure('error_policy_passed_through', h.errors is E_ and _same_option(h.timeout, policy['timeout'])
+                  and _same_option(h.retries, policy['retries']) and _same_option(h.backoff, policy['backoff']))
         return ('sub', pkind, via_register, with_oldnew, h.id)
 
     # ---- rejections
